@@ -43,9 +43,6 @@ EVALUATING_OPS = {'eval_full', 'eval_lazy', 'eval_outputs', 'evaluate', 'evaluat
 def py_exec(req):
     """Run one request on cirbo itself; same JSON shape as the model driver's answer."""
     op = req['op']
-    if op in EVALUATING_OPS and json_is_cyclic(req['c']):
-        # cirbo's lazy evaluator does not terminate on a cyclic netlist: never hand it one (a check must not hang)
-        return {'err': 'Harness:CyclicCircuit'}
     try:
         c = circ_from_json(req['c'])
         if op in ('eval_full', 'eval_lazy', 'eval_outputs'):
